@@ -47,6 +47,11 @@ FRAGMENTS = [
     "C=CC=C=C", "C=C=CC=C", "O=C=Nc1ccccc1", "C=C=Cc1ccccc1", "CSSC",
     "CSOC", "CSN(C)C", "COS(=O)(=O)OC", "OP(=O)(O)O", "CP(=O)(OC)OC",
     "C=CP(C)C", "CSC=C", "S=C=S", "CN=C=O", "N#CC=C=C",
+    # several centres that each need two or three extra bonds
+    "O=C=O.O=C=O", "O=C=NCN=C=O", "O=C=NCCN=C=O", "CS(=O)(=O)CS(C)(=O)=O",
+    "CS(=O)(=O)S(C)(=O)=O", "O=S(=O)=O", "C=S(=O)=O", "N=S(=O)=O",
+    "C=C=CCC=C=C", "CS(=O)(=O)N=C=O", "O=C=O.C=C=C", "S=C=S.O=C=O",
+    "OS(=O)(=O)O", "CS(=O)(=O)O",
 ]
 
 
@@ -66,6 +71,14 @@ def gen_struct(tp):
 def gen_chem(tp):
     if tp.chance(128):
         smi = tp.pick(FRAGMENTS)
+        if tp.chance(50):
+            # two molecules in one connectivity matrix
+            other = tp.pick(FRAGMENTS)
+            # (fragments carrying the open finding are not combined: the
+            # tag is per molecule and would hide the other component)
+            if sum(ch.isalpha() for ch in smi + other) <= 14 and not (
+                    _tagged_fragment(smi) or _tagged_fragment(other)):
+                smi = smi + "." + other
     else:
         smi = rdgen.organic_smiles(tp, max_heavy=9) or "C=C"
     m = rdgen.mol_from_smiles(smi)
@@ -169,15 +182,28 @@ def cumulated_ring_atom(mol):
     # same unsaturated component?
     unsat = {a.GetIdx() for a in mol.GetAtoms() if any(
         b.GetBondTypeAsDouble() > 1 for b in a.GetBonds())}
-    start = cum[0].GetIdx()
-    seen, stack = {start}, [start]
-    while stack:
-        x = stack.pop()
-        for n in mol.GetAtomWithIdx(x).GetNeighbors():
-            if n.GetIdx() in unsat and n.GetIdx() not in seen:
-                seen.add(n.GetIdx())
-                stack.append(n.GetIdx())
-    return any(a.GetIdx() in seen for a in cum[1:])
+    for k, first in enumerate(cum[:-1]):
+        start = first.GetIdx()
+        seen, stack = {start}, [start]
+        while stack:
+            x = stack.pop()
+            for n in mol.GetAtomWithIdx(x).GetNeighbors():
+                if n.GetIdx() in unsat and n.GetIdx() not in seen:
+                    seen.add(n.GetIdx())
+                    stack.append(n.GetIdx())
+        if any(a.GetIdx() in seen for a in cum[k + 1:]):
+            return True
+    return False
+
+
+def _tagged_fragment(smi):
+    from rdkit import Chem
+    m = rdgen.mol_from_smiles(smi)
+    if m is None:
+        return True
+    km = Chem.Mol(m)
+    Chem.Kekulize(km, clearAromaticFlags=True)
+    return cumulated_ring_atom(km)
 
 
 def check_chemical(ctx, case):
